@@ -5,20 +5,48 @@ from __future__ import annotations
 from exo.core.LoopIR import LoopIR, T
 
 
+def binder_kind(proc, sym_repr: str) -> str:
+    """Which kind of statement declares the symbol printed as `sym_repr`
+    (e.g. 'w1_48') in `proc` - used to keep known-finding keys narrow."""
+    for a in proc.args:
+        if repr(a.name) == sym_repr:
+            return "arg"
+
+    def rec(stmts):
+        for s in stmts:
+            if isinstance(s, LoopIR.Alloc) and repr(s.name) == sym_repr:
+                return "Alloc"
+            if isinstance(s, LoopIR.WindowStmt) and repr(s.name) == sym_repr:
+                return "WindowStmt"
+            if isinstance(s, LoopIR.For):
+                if repr(s.iter) == sym_repr:
+                    return "For"
+                r = rec(s.body)
+                if r:
+                    return r
+            elif isinstance(s, LoopIR.If):
+                r = rec(s.body) or rec(s.orelse)
+                if r:
+                    return r
+        return None
+
+    return rec(proc.body) or "none"
+
+
 def validate(proc):
-    """Returns a list of (sig, detail)."""
+    """Returns a list of (sig, detail, symbol-repr)."""
     out = []
 
     def use(sym, scopes, what):
         n = sum(1 for sc in scopes if sym in sc)
         if n == 0:
-            out.append(("unbound-use", f"{what} uses {sym!r} outside any declaration"))
+            out.append(("unbound-use", f"{what} uses {sym!r} outside any declaration", repr(sym)))
         elif n > 1:
-            out.append(("ambiguous-use", f"{what} uses {sym!r} declared {n} times in enclosing scopes"))
+            out.append(("ambiguous-use", f"{what} uses {sym!r} declared {n} times in enclosing scopes", repr(sym)))
 
     def bind(sym, scopes, what):
         if any(sym in sc for sc in scopes):
-            out.append(("duplicate-binder", f"{what} re-declares {sym!r} inside the scope of an earlier declaration"))
+            out.append(("duplicate-binder", f"{what} re-declares {sym!r} inside the scope of an earlier declaration", repr(sym)))
         scopes[-1].add(sym)
 
     def do_t(t, scopes):
@@ -80,11 +108,11 @@ def validate(proc):
                 bind(s.name, scopes, "window statement")
             elif isinstance(s, LoopIR.Call):
                 if len(s.args) != len(s.f.args):
-                    out.append(("call-arity", f"call to {s.f.name} with {len(s.args)} args, expects {len(s.f.args)}"))
+                    out.append(("call-arity", f"call to {s.f.name} with {len(s.args)} args, expects {len(s.f.args)}", ""))
                 for fa, a in zip(s.f.args, s.args):
                     do_e(a, scopes)
                     if fa.type.is_numeric() != a.type.is_numeric():
-                        out.append(("call-kind", f"argument {fa.name} of {s.f.name}: data/control mismatch"))
+                        out.append(("call-kind", f"argument {fa.name} of {s.f.name}: data/control mismatch", ""))
             elif isinstance(s, LoopIR.Free):
                 use(s.name, scopes, "free")
 
